@@ -137,6 +137,18 @@ fn main() {
         emit(true, true, detail, "solver-model");
         return;
     }
+    // uninterpreted libm functions leave the solver some freedom near overflow / underflow thresholds: the same assignment
+    // pushed a little further out (or in) is tried before unrelated assignments
+    if search > 0 && !model.is_empty() {
+        for f in [1.01f32, 1.02, 1.05, 1.1, 1.25, 1.5, 2.0, 0.99, 0.98, 0.95, 0.9, 0.75, 0.5] {
+            let scaled: HashMap<String, f32> = model.iter().map(|(k, v)| (k.clone(), *v * f)).collect();
+            let (ok2, as2, d2) = evaluate(case, &scaled, &role);
+            if ok2 && as2 {
+                emit(true, true, d2, &format!("solver-model-scaled-by-{}", f));
+                return;
+            }
+        }
+    }
     for k in 1..=search {
         DEFAULTS.with(|d| d.set((1000 + k, -2.0, 2.0)));
         let empty = HashMap::new();
